@@ -242,6 +242,10 @@ void bn_rand_mod(bn_t a, const bn_t b) {
 		bn_new(t);
 
 		bn_copy(t, b);
+		if (bn_bits(t) < 2) {
+			/* There is no non-zero integer of smaller absolute value. */
+			RLC_THROW(ERR_NO_VALID);
+		}
 		do {
 			bn_rand(a, bn_sign(t), bn_bits(t) + RAND_DIST);
 			bn_mod(a, a, t);
